@@ -118,27 +118,21 @@ Lemma v2_fatal_first : fatal_first v2_arms = true. Proof. reflexivity. Qed.
 Lemma v2_stops_before_recover : stops_before_recover v2_arms = true. Proof. reflexivity. Qed.
 Lemma v1_no_stop_arms : stops_before_recover v1_arms = false. Proof. reflexivity. Qed.
 
-(* ---------- which of the property's fatal causes carry the fatal tag ---------- *)
-Lemma fatal_causes_tagged_v1 k :
-  property_fatal k = true -> k <> FDlqWriteAfterDst -> engine_tag V1 true k = RFatal.
-Proof. destruct k as [| |d| | | | | | | |]; simpl; intros H1 H2; try discriminate; try reflexivity; congruence. Qed.
+(* ---------- every one of the property's fatal causes carries the fatal tag ---------- *)
+Lemma fatal_causes_tagged e k : property_fatal k = true -> engine_tag e true k = RFatal.
+Proof. destruct e, k; simpl; intros H; try discriminate; reflexivity. Qed.
 
-Lemma fatal_causes_tagged_v2 k :
-  property_fatal k = true -> k <> FProcNotAbsorbed false -> engine_tag V2 true k = RFatal.
+Lemma fatal_causes_degrade e k f rec :
+  property_fatal k = true ->
+  decide (arms_of e) (engine_tag e true k) f rec = Final Degraded TFatal
+  /\ enters_recovery (arms_of e) (engine_tag e true k) f = false.
 Proof.
-  destruct k as [| |d| | | | | | | |]; simpl; intros H1 H2; try discriminate; try reflexivity.
-  destruct d; [reflexivity|congruence].
+  intros H. rewrite (fatal_causes_tagged e k H). destruct e; apply fatal_degrades_generic; reflexivity.
 Qed.
 
-Lemma dlq_write_failure_restarts_v1 :
-  property_fatal FDlqWriteAfterDst = true /\
-  decide v1_arms (engine_tag V1 true FDlqWriteAfterDst) (mkFlags false false) RecRestarted = Restart.
-Proof. split; reflexivity. Qed.
-
-Lemma proc_error_dlq_off_restarts_v2 :
-  property_fatal (FProcNotAbsorbed false) = true /\
-  decide v2_arms (engine_tag V2 true (FProcNotAbsorbed false)) (mkFlags false false) RecRestarted = Restart.
-Proof. split; reflexivity. Qed.
+(* the causes the property calls transient stay recoverable *)
+Lemma transient_causes_not_tagged e k : property_fatal k = false -> engine_tag e true k = RTransient.
+Proof. destruct e, k; simpl; intros H; try discriminate; reflexivity. Qed.
 
 (* a force stop whose Kill site does not wrap FatalError would be recovered (mutation analysis) *)
 Lemma unwrapped_force_stop_restarts e :
